@@ -6,10 +6,17 @@ import json, os, subprocess, sys
 root = os.path.dirname(os.path.dirname(os.path.abspath(__file__)))
 src = json.load(open(os.path.join(root, "tools", "manifest_src.json")))
 props = [json.loads(l) for l in open(os.path.join(root, "properties.jsonl"))]
+desc = json.loads(subprocess.check_output([os.path.join(root, "bin", "pikelint"), "-describe"]))
 checks, na = [], []
 for p in props:
     pid = p["id"]
     e = src["checks"].get(pid)
+    if e is None and pid in desc:
+        e = {}
+    if e is not None and not e.get("not_applicable"):
+        e.setdefault("text", "Static, exhaustive over the control-flow paths / value ranges / call sites of the anchored constructs. " + desc.get(pid, ""))
+        e.setdefault("note", src["default_note"])
+        e.setdefault("technique", src["default_technique"])
     if e is None or e.get("not_applicable"):
         na.append({"property_id": pid, "reason": (e or {}).get("not_applicable", "no static check is registered for this property yet")})
         continue
